@@ -1,0 +1,31 @@
+//go:build verif
+// +build verif
+
+package main
+
+import (
+	"fmt"
+	"os"
+	"strings"
+)
+
+// Verification hook, only compiled with the "verif" build tag: when
+// VERIF_FITGEN_STRINGER is set to "<types.go>:<output>:<Type1,Type2,...>" the
+// command runs the repository's stringer on the given type definitions, writes
+// the result and exits, without needing an SDK workbook.
+func init() {
+	spec := os.Getenv("VERIF_FITGEN_STRINGER")
+	if spec == "" {
+		return
+	}
+	parts := strings.SplitN(spec, ":", 3)
+	if len(parts) != 3 {
+		fmt.Fprintln(os.Stderr, "VERIF_FITGEN_STRINGER: want <types.go>:<output>:<types>")
+		os.Exit(2)
+	}
+	if err := runStringerOnTypes(parts[0], parts[1], strings.Split(parts[2], ",")); err != nil {
+		fmt.Fprintln(os.Stderr, err)
+		os.Exit(1)
+	}
+	os.Exit(0)
+}
